@@ -95,6 +95,10 @@ class Fn:
 
 
 def gen_params(rnd, typing_ok, feature):
+    if feature == "po_kw":        # def f(v, /, *, k): a bare `*` right after the `/`
+        return [("v", "PosOnly", None, None), ("k", "KwOnly", None, rnd.choice([None, "0"]))]
+    if feature == "po_var":       # def f(s, /, *a, e): `*args` right after the `/`
+        return [("s", "PosOnly", None, None), ("a", "VarPos", None, None), ("e", "KwOnly", None, rnd.choice([None, "None"]))]
     names = ["a", "b", "c", "d", "e"]
     n = rnd.randint(0, 4)
     ps = []
@@ -159,6 +163,14 @@ class Mod:
             self.fns.append(Fn(f"f{i}", gen_params(rnd, typing_ok, f), rnd.choice([None, None, "int", "str"]) if f != "gen" else None,
                                is_async=(f == "async"), is_gen=(f == "gen"), deco=r() < 0.2, nested=r() < 0.3,
                                comment=r() < 0.5, local_import=r() < 0.15))
+        # the seam between positional-only parameters and `*` / `*args` (stub rendering of the separators)
+        for f in (["po_kw", "po_var"] if idx == 0 else [rnd.choice(["po_kw", "po_var", None])]):
+            if f:
+                self.fns.append(Fn(f"g_{f}", gen_params(rnd, typing_ok, f), None, comment=r() < 0.3))
+        # imports the source already holds in a non-module-level position (the confinement seam)
+        self.tc_block = rnd.choice([None, "Circle", "Circle, Square"]) if idx != 1 else "Circle"
+        self.try_import = (r() < 0.3) or idx == 1
+        self.local_plain_import = (r() < 0.3) or idx == 1
         self.classes = []
         for ci in range(rnd.randint(0, 2)):
             ms = []
@@ -192,6 +204,15 @@ class Mod:
             L.append(f"from {self.shapes} import Square as Set")
         if self.star_import:
             L.append("from typing import *")
+        if self.tc_block:
+            L.append("from typing import TYPE_CHECKING")
+            L.append("if TYPE_CHECKING:")
+            L.append(f"    from {self.shapes} import {self.tc_block}")
+        if self.try_import:
+            L.append("try:")
+            L.append(f"    from {self.shapes} import Square")
+            L.append("except ImportError:")
+            L.append("    Square = None")
         L.append("")
         L.append("# a free-standing comment")
         L.append("LIMIT = 10")
@@ -204,6 +225,11 @@ class Mod:
         L.append("        return fn(*a, **k)")
         L.append("    return wrapper")
         L.append("")
+        if self.local_plain_import:
+            L.append("def uses_local_import():")
+            L.append(f"    from {self.shapes} import Circle")
+            L.append("    return Circle")
+            L.append("")
         for i, f in enumerate(self.fns):
             if i == 1 and self.block_fn:
                 L.append("if LIMIT > 5:")
